@@ -87,6 +87,8 @@ def diag_embed(case, reject):
     return {"cause": "pattern-reaches-into-neighbouring-word:" + ",".join(map(str, ids))} if ids else {"cause": "other"}
 
 
+FROZEN_INERT = ("street", "staff", "thanks", "terrace", "pizza", "oma", "every", "knot", "copyright", "pmx",
+                "Hütte", "Männer", "Möbel", "Hände", "hübsch", "Mühle", "Tänzer", "näher", "übung", "ärger")
 STAGES = {"lattice": (obs_lattice, "LatticeTrace"), "embeddings": (obs_embed, "VariantTrace")}
 
 
@@ -108,7 +110,9 @@ def grammar_exprs(rnd, quick):
             "5.3.2021 for 3 days", "before 5.3.2021", "after 17:30", "next friday at noon", "tomorrow morning", "31.12. 23:59",
             # expressions that START with an absorbed word (the span must include it, also after latent anchoring)
             "between 9:30 and 11:00", "from 8:00 to 9:00", "von 8:00 bis 9:00", "zwischen 8:00 und 10:00", "at 8pm", "um 8:30", "on monday",
-            "am 5.3.2021", "from 8 to 9 pm", "gegen 17 uhr", "about 9:15", "vom 1.3.2021 bis 5.3.2021"]
+            "am 5.3.2021", "from 8 to 9 pm", "gegen 17 uhr", "about 9:15", "vom 1.3.2021 bis 5.3.2021",
+            # expressions that END in a bare number (a unit / suffix pattern could pick up the head of the next word)
+            "morgen um 8", "tomorrow at 5", "am 5", "friday 9", "heute 15", "3"]
     pods = [f for fs in G.LEX["pod"].values() for f in fs[:2]]
     out += pods[:6 if quick else len(pods)]
     seen, res = set(), []
@@ -126,7 +130,13 @@ def run(ctx):
     ctx.assumptions += ["the span of the embedded parse is compared with the span of the bare parse shifted by the prefix; for grammar "
                         "expressions the bare span must be the whole expression"]
     ctx.mc("Embed", "MC_Embed_trimmed.cfg")
-    words = [w for w in G.INERT_CANDIDATES if inert(w)]
+    # inertness is decided by the tree's own patterns - except for the curated fragment words below, which ARE inert by
+    # specification (they were on the pinned tree and are no time words in either language): a tree whose patterns have
+    # started to match into them must not thereby escape the check
+    lost = [w for w in FROZEN_INERT if not inert(w)]
+    if lost:
+        ctx.note("words that are inert by specification are matched by a pattern of this tree on their own: %r (still used as inert words)" % (lost,))
+    words = [w for w in G.INERT_CANDIDATES if inert(w) or w in FROZEN_INERT]
     if len(words) < 8:
         raise core.obsmod.MachineryError("too few inert words: %r" % words)
     ctx.extra["inert_words"] = words
@@ -162,6 +172,15 @@ def run(ctx):
                     continue
                 cases.append({"text": text, "base": t, "ts": ts, "shift": shift, "latent": latent, "full": full and np_ == 0 and ns == 1,
                               "label": "prefix%d-suffix%d" % (min(np_, 1), min(ns, 1)), "form": "latent%d" % latent})
+    # every "pattern fragment" word (head or tail is a piece of some pattern: st.., a.., very.., pm.., h/m/t + non-ASCII letter)
+    # directly behind and directly in front of expressions that end / start with a bare number or a clock
+    frag = [w for w in words if w in FROZEN_INERT]
+    for t in ("morgen um 8", "tomorrow at 5", "am 5", "friday 9", "heute 15", "um 8:30", "at 8pm", "5.3.2021", "3 days", "early morning", "now",
+              "before 5pm", "quarter to 8", "tomorrow"):
+        for w in frag:
+            for text, shift in ((t + " " + w, 0), (w + " " + t, len(w) + 1)):
+                cases.append({"text": text, "base": t, "ts": (2018, 3, 7, 12, 43), "shift": shift, "latent": 1, "full": 0,
+                              "label": "fragment-word", "form": "latent1"})
     # the same under relative_match_len < 1 (the coverage filter must not depend on where the expression starts)
     extra = []
     for c in cases:
